@@ -39,11 +39,14 @@ CLAIMED.update({
         text='Lean 4 model of prob_status/download/install against an ARBITRARY server function; theorems for every server, '
              'prior state, force and no_cleaning: at most one extraction and only of bytes whose checksum matches; marker '
              'implies verified extraction (or stale marker without force); any other outcome leaves nothing extracted/marked; '
-             'liveness against an honest server incl. resume. Tied by fault-script correspondence with a fake requests module.',
+             'liveness against an honest server incl. resume; and for every HISTORY of invocations on one install directory '
+             '(history_extracts_only_verified, history_marked_implies, induction on the list of calls): everything ever '
+             'extracted is verified, a marker at the end needs a verified extraction or a marker at the start. Tied by '
+             'fault-script correspondence with a fake requests module over histories of 1..3 invocations.',
         note=COMMON_NOTE + 'SHA-256 is an abstract predicate (driver: equality with the good content); requests/tarfile/yaml are '
              'replaced or observed at their interface; Dataset.upgrade() after install is outside (C20).',
-        technique='Lean 4 proof (case analysis + induction on attempts, universally quantified server) + fault-script '
-                  'differential correspondence',
+        technique='Lean 4 proof (case analysis + induction on attempts and on invocation histories, universally quantified '
+                  'server) + fault-script differential correspondence',
         design_ref='DESIGN.md §6 C17'),
     'C19': dict(
         text='Lean 4 decision-function model of delete_existing_kapture_files over tables GENERATED from the live modules; '
